@@ -456,6 +456,20 @@ class Check:
             "explanation": "; ".join(self.notes),
         }
         coverage.update(self.extra)
+        # bookkeeping of the statement-by-statement transcriptions this property's theorems rest on (tool/transcripts.py):
+        # informational — a stale transcription is not a violation, the differential correspondence above is what decides
+        try:
+            import transcripts
+            from gen_audit import prop_modules
+            closure = {os.path.relpath(p_, LEAN)[:-5].replace(os.sep, ".") for p_ in lean_closure([f"Tuc.Props.{m}" for m in prop_modules(self.prop_id)])}
+            rows = transcripts.status(closure)
+            coverage["literal_transcriptions"] = rows
+            for r_ in rows:
+                if not r_["fresh"]:
+                    printed.append(f"NOTE: property={self.prop_id} the transcription of {r_['rust_file']} {r_['item']} in {r_['lean_module']} is stale ({r_['reason']}): "
+                                   "its refinement theorem speaks about an earlier version of that function; the correspondence run above is what ties this run to the current code")
+        except Exception as e:  # never let bookkeeping break a check
+            coverage["literal_transcriptions"] = [{"error": repr(e)}]
         ev = {
             "property_id": self.prop_id,
             "tier": self.tier,
